@@ -680,7 +680,7 @@ def translate_unit(unit: Unit, repo: str):
     path = os.path.join(repo, unit.file)
     with open(path) as f:
         src = f.read()
-    tr = Tr(unit, src)
+    tr = (getattr(unit, "tr_class", None) or Tr)(unit, src)
     # a parameter that is assigned is a local initialised from the parameter; reading it
     # must go through the state — handled because `locals` is checked before params.
     return tr.emit()
